@@ -639,6 +639,20 @@ def refute_by_point_rels(diffs, hyps, rels, tries=400, seed=0):
     hy = [h.xreplace(lin) if isinstance(h, sp.Basic) else h for h in hyps]
     if any(isinstance(a, sp.core.function.AppliedUndef) for e in exprs for a in sp.preorder_traversal(e)):
         return None
+    # hypotheses over variables that neither the goal nor the relations mention (loop indices of the generic iteration, sizes ...) constrain nothing
+    # here: they are dropped (they come from a feasible path, so they are satisfiable on their own variables) - every one kept must still hold at the point
+    rel_syms = set()
+    for e in exprs + [sp.sympify(r_) for _, _, r_ in high] + [lead for lead, _, _ in high]:
+        rel_syms |= getattr(e, "free_symbols", set())
+    changed = True
+    while changed:
+        changed = False
+        for h in hy:
+            fs = getattr(h, "free_symbols", set())
+            if fs & rel_syms and not fs <= rel_syms:
+                rel_syms |= fs
+                changed = True
+    hy = [h for h in hy if not isinstance(h, sp.Basic) or (h.free_symbols & rel_syms) or not h.free_symbols]
     syms = set()
     for e in exprs + [sp.sympify(r_) for _, _, r_ in high] + [h for h in hy if isinstance(h, sp.Basic)]:
         syms |= e.free_symbols
